@@ -840,10 +840,15 @@ class MultipleRangeStaticProducer(StaticProducer):
                 dataLength += len(self.partBoundary)
                 data.append(self.partBoundary)
                 self.partBoundary = None
+            # The part separator just added may have taken dataLength past
+            # bufferSize; never ask for a negative number of bytes.
             p = self.fileObject.read(
-                min(
-                    self.bufferSize - dataLength,
-                    self._partSize - self._partBytesWritten,
+                max(
+                    0,
+                    min(
+                        self.bufferSize - dataLength,
+                        self._partSize - self._partBytesWritten,
+                    ),
                 )
             )
             self._partBytesWritten += len(p)
